@@ -398,14 +398,15 @@ func (stub *stub) Start(ctx context.Context) (retErr error) {
 		return fmt.Errorf("failed to multiplex ttrpc client connection: %w", err)
 	}
 
+	var rpcc *ttrpc.Client
 	closedC := make(chan struct{})
 	clientOpts := []ttrpc.ClientOpts{
 		ttrpc.WithOnClose(func() {
 			close(closedC)
-			stub.connClosed()
+			stub.connClosed(rpcc)
 		}),
 	}
-	rpcc := ttrpc.NewClient(conn, append(clientOpts, stub.clientOpts...)...)
+	rpcc = ttrpc.NewClient(conn, append(clientOpts, stub.clientOpts...)...)
 	defer func() {
 		if retErr != nil {
 			rpcc.Close()
@@ -586,9 +587,13 @@ func (stub *stub) register(ctx context.Context) error {
 }
 
 // Handle a lost connection.
-func (stub *stub) connClosed() {
+func (stub *stub) connClosed(rpcc *ttrpc.Client) {
 	stub.Lock()
-	stub.close()
+	// A late notification about an earlier connection must not
+	// tear down the one the stub has been restarted with since.
+	if stub.rpcc == rpcc {
+		stub.close()
+	}
 	stub.Unlock()
 	if stub.onClose != nil {
 		stub.onClose()
